@@ -304,6 +304,34 @@ class Recurrent(torch.nn.Module):
         return torch.tanh(self.lin(input)) + 0.5 * prev
 
 
+class Capped(torch.nn.Module):
+    """A user model in the style of a no-transaction band: a linear score clamped between a fixed floor (a number) and a
+    learned cap (a tensor depending on a parameter), through pfhedge's Clamp / LeakyClamp modules."""
+
+    def __init__(self, in_features: int, out_features: int, variant: int):
+        super().__init__()
+        from pfhedge.nn import Clamp, LeakyClamp
+
+        self.lin = torch.nn.Linear(in_features, out_features)
+        self.cap = torch.nn.Parameter(torch.full((out_features,), 0.3))
+        self.variant = variant % 4
+        self.clamp = [Clamp(), Clamp(inverted_output="max"), LeakyClamp(0.05), LeakyClamp(0.05, inverted_output="max")][self.variant]
+        self.sig = []  # which side of the two kinks every element was on (read by gradient checks)
+
+    def forward(self, input):
+        z = self.lin(input)
+        cap = torch.nn.functional.softplus(self.cap).expand_as(z)
+        self.sig.append((torch.sign(z - cap).detach(), torch.sign(z + 0.25).detach()))
+        return self.clamp(z, -0.25, cap)
+
+
+class BandFeature(torch.nn.Module):
+    """Parameter-free module used as a ModuleOutput feature fed with the previous hedge (like WhalleyWilmott as a feature)."""
+
+    def forward(self, input):
+        return 0.3 * torch.tanh(input[..., :1] - 1.0) + 0.5 * input[..., 1:].mean(-1, keepdim=True)
+
+
 def build_scenario(spec: Dict[str, Any]):
     """-> dict(derivative, hedge (list or None), hedger, model, ul, inputs)"""
     import pfhedge.instruments as I
@@ -359,6 +387,8 @@ def build_scenario(spec: Dict[str, Any]):
                 inputs.append(UnderlierSpot(log=True))
             elif name == "__module_output":
                 inputs.append(ModuleOutput(torch.nn.Linear(2, 2).to(dtype), inputs=["underlier_spot", "zeros"]))
+            elif name == "__band_feature":
+                inputs.append(ModuleOutput(BandFeature(), inputs=["underlier_spot", "prev_hedge"]))
             else:
                 inputs.append(name)
         n_feat = 0
@@ -381,6 +411,8 @@ def build_scenario(spec: Dict[str, Any]):
             model = Naked(H)
         elif m == "recurrent":
             model = Recurrent(n_feat, H)
+        elif m == "capped":
+            model = Capped(n_feat, H, spec["model_seed"])
         else:
             raise ValueError(m)
         model = model.to(dtype)
